@@ -92,5 +92,12 @@ fn main() {
         "CONSTRUCT { ?s ?p ?o } WHERE { ?s ?p ?o }",
         "DESCRIBE <tag:a>",
         "ASK { ?s <tag:p> ?o } LIMIT 0",
+        "SELECT * { ?s <tag:p> ?o FILTER EXISTS { ?o <tag:p> ?z OPTIONAL { ?z <tag:p> ?w } } }",
+        "SELECT * { ?s <tag:p> ?o FILTER NOT EXISTS { ?o <tag:p> ?z OPTIONAL { ?z <tag:p> ?w } } }",
+        "SELECT * { GRAPH ?g { ?s <tag:p> ?o BIND(1 AS ?g) } }",
+        "SELECT * { GRAPH <tag:g1> { ?s <tag:p> ?o } }",
+        "SELECT * { GRAPH ?g { { SELECT ?s { ?s <tag:p> ?o } LIMIT 1 } } }",
+        "SELECT ?s ?g { ?s <tag:p> ?o  GRAPH ?g {} }",
+        "SELECT * { { ?s <tag:p> ?o } UNION { GRAPH ?g { ?s <tag:q> ?o } } }",
     ] { run(&d, q); }
 }
